@@ -37,6 +37,132 @@ def chgValues (ps : List AtomProp) : List Int := ps.filterMap fun | .chg v => so
 def radValues (ps : List AtomProp) : List Int := ps.filterMap fun | .rad v => some v | _ => none
 def massValues (ps : List AtomProp) : List Int := ps.filterMap fun | .mass v => some v | _ => none
 
+
+namespace V3L
+open LineM
+
+theorem cs_CHGeq (v : Int) : cs "CHG=" ++ intRepr v = cs "CHG" ++ '=' :: intRepr v := by simp [cs]
+theorem cs_RADeq (v : Int) : cs "RAD=" ++ intRepr v = cs "RAD" ++ '=' :: intRepr v := by simp [cs]
+theorem cs_MASSeq (v : Int) : cs "MASS=" ++ intRepr v = cs "MASS" ++ '=' :: intRepr v := by simp [cs]
+
+theorem kC : KeyC (cs "CHG") := Or.inl rfl
+theorem kM : KeyC (cs "MASS") := Or.inr (Or.inl rfl)
+theorem kR : KeyC (cs "RAD") := Or.inr (Or.inr rfl)
+
+theorem notKeyword_miss {key : Str} (hk : KeyC key) {t : Str} (h : NotKeyword t) : Miss key t := by
+  rcases hk with rfl | rfl | rfl
+  · exact h.2.1
+  · exact h.2.2.1
+  · exact h.2.2.2
+
+/-- a `key'=v` token is missed by the scan for a different keyword -/
+theorem miss_kv {key key' : Str} (hk : KeyC key) (hk' : KeyC key') (hne : key.head? ≠ key'.head?) (v : Int) :
+    Miss key (key' ++ '=' :: intRepr v) := optTok_miss hk hk' hne (some v) _ (by simp [optTok])
+
+theorem neCM : (cs "CHG").head? ≠ (cs "MASS").head? := by rw [cs_CHG, cs_MASS]; decide
+theorem neCR : (cs "CHG").head? ≠ (cs "RAD").head? := by rw [cs_CHG, cs_RAD]; decide
+theorem neMR : (cs "MASS").head? ≠ (cs "RAD").head? := by rw [cs_MASS, cs_RAD]; decide
+
+theorem kvFrom_cons (key : Str) (t : Str) (ts : List Str) (acc : List Int) :
+    kvFrom key acc (t :: ts) = kvFrom key acc [t] >>= fun acc' => kvFrom key acc' ts :=
+  kvFrom_append key [t] ts acc
+
+theorem kvFrom_hit' {key : Str} (hk : KeyC key) (v : Int) (acc : List Int)
+    (hlen : (intRepr v).length ≤ intMaxStrDigits) :
+    kvFrom key acc [key ++ '=' :: intRepr v] = .ok (acc ++ [v]) :=
+  kvFrom_hit key v acc (fun h => (keyC_chars hk _ h).2 rfl) (intRepr_no_eq v) hlen
+
+theorem kvFrom_miss1 {key : Str} {t : Str} (h : Miss key t) (acc : List Int) :
+    kvFrom key acc [t] = .ok acc := kvFrom_miss key [t] acc (by simpa using h)
+
+theorem kv_chg : ∀ (ps : List AtomProp) (acc : List Int), (∀ p ∈ ps, p.Ok) →
+    kvFrom (cs "CHG") acc (ps.map AtomProp.tok) = .ok (acc ++ chgValues ps) := by
+  intro ps
+  induction ps with
+  | nil => intro acc _; simp [chgValues, kvFrom]; rfl
+  | cons p ps ih =>
+    intro acc h
+    have hp := h p (by simp)
+    have ih' := fun acc' => ih acc' (fun q hq => h q (by simp [hq]))
+    rw [List.map_cons, kvFrom_cons]
+    cases p with
+    | chg v =>
+      simp only [AtomProp.tok, cs_CHGeq, kvFrom_hit' kC v acc hp, ok_bind, ih']
+      simp [chgValues]
+    | rad v =>
+      simp only [AtomProp.tok, cs_RADeq, kvFrom_miss1 (miss_kv kC kR neCR v), ok_bind, ih']
+      simp [chgValues]
+    | mass v =>
+      simp only [AtomProp.tok, cs_MASSeq, kvFrom_miss1 (miss_kv kC kM neCM v), ok_bind, ih']
+      simp [chgValues]
+    | other t =>
+      simp only [AtomProp.tok, kvFrom_miss1 (notKeyword_miss kC hp), ok_bind, ih']
+      simp [chgValues]
+
+theorem kv_rad : ∀ (ps : List AtomProp) (acc : List Int), (∀ p ∈ ps, p.Ok) →
+    kvFrom (cs "RAD") acc (ps.map AtomProp.tok) = .ok (acc ++ radValues ps) := by
+  intro ps
+  induction ps with
+  | nil => intro acc _; simp [radValues, kvFrom]; rfl
+  | cons p ps ih =>
+    intro acc h
+    have hp := h p (by simp)
+    have ih' := fun acc' => ih acc' (fun q hq => h q (by simp [hq]))
+    rw [List.map_cons, kvFrom_cons]
+    cases p with
+    | chg v =>
+      simp only [AtomProp.tok, cs_CHGeq, kvFrom_miss1 (miss_kv kR kC neCR.symm v), ok_bind, ih']
+      simp [radValues]
+    | rad v =>
+      simp only [AtomProp.tok, cs_RADeq, kvFrom_hit' kR v acc hp, ok_bind, ih']
+      simp [radValues]
+    | mass v =>
+      simp only [AtomProp.tok, cs_MASSeq, kvFrom_miss1 (miss_kv kR kM neMR.symm v), ok_bind, ih']
+      simp [radValues]
+    | other t =>
+      simp only [AtomProp.tok, kvFrom_miss1 (notKeyword_miss kR hp), ok_bind, ih']
+      simp [radValues]
+
+theorem kv_mass : ∀ (ps : List AtomProp) (acc : List Int), (∀ p ∈ ps, p.Ok) →
+    kvFrom (cs "MASS") acc (ps.map AtomProp.tok) = .ok (acc ++ massValues ps) := by
+  intro ps
+  induction ps with
+  | nil => intro acc _; simp [massValues, kvFrom]; rfl
+  | cons p ps ih =>
+    intro acc h
+    have hp := h p (by simp)
+    have ih' := fun acc' => ih acc' (fun q hq => h q (by simp [hq]))
+    rw [List.map_cons, kvFrom_cons]
+    cases p with
+    | chg v =>
+      simp only [AtomProp.tok, cs_CHGeq, kvFrom_miss1 (miss_kv kM kC neCM.symm v), ok_bind, ih']
+      simp [massValues]
+    | rad v =>
+      simp only [AtomProp.tok, cs_RADeq, kvFrom_miss1 (miss_kv kM kR neMR v), ok_bind, ih']
+      simp [massValues]
+    | mass v =>
+      simp only [AtomProp.tok, cs_MASSeq, kvFrom_hit' kM v acc hp, ok_bind, ih']
+      simp [massValues]
+    | other t =>
+      simp only [AtomProp.tok, kvFrom_miss1 (notKeyword_miss kM hp), ok_bind, ih']
+      simp [massValues]
+
+/-- evaluation of the atom-line reader for `D` / `T`: the MASS keywords are not scanned at all -/
+theorem parse_eval_iso (L : List Str) (sym0 X Y Z : Str) (iso z : Int) (chg rad : List Int)
+    (h3 : getIdx L 3 = .ok sym0) (hstar : (sym0 == ['*']) = false)
+    (hdet : detectHydrogenIsotopes sym0 = (['H'], iso)) (hiso : (iso == 0) = false)
+    (hz : atomicNumberOf ['H'] = .ok z)
+    (h4 : getIdx L 4 = .ok X) (h5 : getIdx L 5 = .ok Y) (h6 : getIdx L 6 = .ok Z)
+    (hX : pyFloat X = .ok X) (hY : pyFloat Y = .ok Y) (hZ : pyFloat Z = .ok Z)
+    (hc : keywordValues (cs "CHG") L = .ok chg)
+    (hr : keywordValues (cs "RAD") L = .ok rad) :
+    parseAtomAttributesV3000 L = .ok (some { sym := some ['H'], z := some z, part := some 0, x := some X, y := some Y, zc := some Z, chg := lastNonZero chg, mass := lastNonZero [iso], rad := lastNonZero rad }) := by
+  unfold parseAtomAttributesV3000
+  simp only [h3, ok_bind, hstar, Bool.false_eq_true, if_false, hdet, hz, h4, h5, h6, hX, hY, hZ, hc, hr, hiso]
+  rfl
+
+end V3L
+open LineM V3L in
 /-- **The atom line, every spelling.**  Tokens `M V30 index type x y z aamap` followed by properties in any
 order, with any other keywords in between: the reader returns the stated element (D and T are hydrogen of
 mass 2 and 3), the coordinate tokens, and for charge / radical / mass the LAST value written under that
@@ -54,12 +180,82 @@ theorem parseAtomAttributes_general (idxTok sym x y z aamap : Str) (ps : List At
                   mass := if (detectHydrogenIsotopes sym).2 = 0 then lastNonZero (massValues ps)
                           else some (detectHydrogenIsotopes sym).2,
                   rad := lastNonZero (radValues ps) }) := by
-  sorry
+  obtain ⟨hXt, hXf⟩ := hx x (by simp)
+  obtain ⟨hYt, hYf⟩ := hx y (by simp)
+  obtain ⟨hZt, hZf⟩ := hx z (by simp)
+  have hpf : ∀ t, IsToken t → pyFloatOk t = true → pyFloat t = .ok t := by
+    intro t ht hf
+    simp only [pyFloat, hf, if_true, strip_of_all t ht.2]
+  -- the symbol token is never a keyword token
+  have hsymMiss : ∀ key, KeyC key → Miss key sym := by
+    intro key hk
+    rcases hsym with hel | rfl | rfl
+    · have hsok : symOk sym = true := List.all_eq_true.1 elementSyms_symOk sym hel
+      simp only [symOk, Bool.and_eq_true, bne_iff_ne, ne_eq] at hsok
+      obtain ⟨⟨⟨_, hs6⟩, hs7⟩, hs8⟩ := hsok
+      rcases hk with rfl | rfl | rfl
+      · rw [cs_CHG]; exact hs6
+      · rw [cs_MASS]; exact hs7
+      · rw [cs_RAD]; exact hs8
+    · exact miss_of_head hk _ (by simp)
+    · exact miss_of_head hk _ (by simp)
+  have hbase : ∀ key, KeyC key → ∀ t ∈ [cs "M", cs "V30", idxTok, sym, x, y, z, aamap], Miss key t := by
+    intro key hk t ht
+    simp only [List.mem_cons, List.not_mem_nil, or_false] at ht
+    rcases ht with rfl | rfl | rfl | rfl | rfl | rfl | rfl | rfl
+    · exact miss_M hk
+    · exact miss_of_head hk _ (by simp [cs])
+    · exact notKeyword_miss hk hidx
+    · exact hsymMiss key hk
+    · exact miss_of_head hk _ (float_head hXt hXf)
+    · exact miss_of_head hk _ (float_head hYt hYf)
+    · exact miss_of_head hk _ (float_head hZt hZf)
+    · exact notKeyword_miss hk haa
+  have hsplit : cs "M" :: cs "V30" :: idxTok :: sym :: x :: y :: z :: aamap :: ps.map AtomProp.tok =
+      [cs "M", cs "V30", idxTok, sym, x, y, z, aamap] ++ ps.map AtomProp.tok := rfl
+  have hkc : keywordValues (cs "CHG") (cs "M" :: cs "V30" :: idxTok :: sym :: x :: y :: z :: aamap :: ps.map AtomProp.tok)
+      = .ok (chgValues ps) := by
+    rw [keywordValues_eq, hsplit, kvFrom_append, kvFrom_miss _ _ _ (hbase _ kC), ok_bind, kv_chg ps [] hps,
+      List.nil_append]
+  have hkr : keywordValues (cs "RAD") (cs "M" :: cs "V30" :: idxTok :: sym :: x :: y :: z :: aamap :: ps.map AtomProp.tok)
+      = .ok (radValues ps) := by
+    rw [keywordValues_eq, hsplit, kvFrom_append, kvFrom_miss _ _ _ (hbase _ kR), ok_bind, kv_rad ps [] hps,
+      List.nil_append]
+  have hkm : keywordValues (cs "MASS") (cs "M" :: cs "V30" :: idxTok :: sym :: x :: y :: z :: aamap :: ps.map AtomProp.tok)
+      = .ok (massValues ps) := by
+    rw [keywordValues_eq, hsplit, kvFrom_append, kvFrom_miss _ _ _ (hbase _ kM), ok_bind, kv_mass ps [] hps,
+      List.nil_append]
+  have hH : ['H'] ∈ elementSyms := by decide +kernel
+  rcases hsym with hel | rfl | rfl
+  · have hsok : symOk sym = true := List.all_eq_true.1 elementSyms_symOk sym hel
+    simp only [symOk, Bool.and_eq_true, bne_iff_ne, ne_eq] at hsok
+    obtain ⟨⟨⟨⟨⟨⟨_, hs3⟩, hs4⟩, hs5⟩, _⟩, _⟩, _⟩ := hsok
+    have hdet : detectHydrogenIsotopes sym = (sym, 0) := by
+      simp only [detectHydrogenIsotopes, beq_iff_eq, hs4, hs5, if_false]
+    have hstar : (sym == ['*']) = false := by simpa using hs3
+    obtain ⟨zAt, hz, _, _⟩ := atomicNumberOf_elementSyms sym hel
+    refine ⟨zAt, by rw [hdet]; exact hz, ?_⟩
+    rw [parse_eval _ sym x y z zAt _ _ _ rfl hstar hdet hz rfl rfl rfl
+      (hpf x hXt hXf) (hpf y hYt hYf) (hpf z hZt hZf) hkc hkm hkr, hdet]
+    simp
+  · obtain ⟨zAt, hz, _, _⟩ := atomicNumberOf_elementSyms ['H'] hH
+    have hdet : detectHydrogenIsotopes ['D'] = (['H'], 2) := by decide
+    refine ⟨zAt, by rw [hdet]; exact hz, ?_⟩
+    rw [parse_eval_iso _ ['D'] x y z 2 zAt _ _ rfl (by decide) hdet (by decide) hz rfl rfl rfl
+      (hpf x hXt hXf) (hpf y hYt hYf) (hpf z hZt hZf) hkc hkr, hdet]
+    simp [lastNonZero]
+  · obtain ⟨zAt, hz, _, _⟩ := atomicNumberOf_elementSyms ['H'] hH
+    have hdet : detectHydrogenIsotopes ['T'] = (['H'], 3) := by decide
+    refine ⟨zAt, by rw [hdet]; exact hz, ?_⟩
+    rw [parse_eval_iso _ ['T'] x y z 3 zAt _ _ rfl (by decide) hdet (by decide) hz rfl rfl rfl
+      (hpf x hXt hXf) (hpf y hYt hYf) (hpf z hZt hZf) hkc hkr, hdet]
+    simp [lastNonZero]
 
 /-- a star atom line is recognised whatever follows the `*` -/
 theorem parseAtomAttributes_star (idxTok : Str) (rest : List Str) :
     parseAtomAttributesV3000 (cs "M" :: cs "V30" :: idxTok :: ['*'] :: rest) = .ok none := by
-  sorry
+  unfold parseAtomAttributesV3000
+  rfl
 
 /-- the `ENDPTS=(n a₁ … aₙ)` list, as the tokens of a bond line: `ENDPTS=(n`, `a₁`, …, `aₙ)` -/
 def endptsToks (ends : List Nat) : List Str :=
@@ -71,6 +267,208 @@ def endptsToks (ends : List Nat) : List Str :=
     | [] => []
     | last :: initRev => (cs "ENDPTS=(" ++ (initRev.reverse.headD [])) :: (initRev.reverse.drop 1) ++ [last ++ [')']]
 
+
+namespace V3L
+open LineM
+
+/-! ### the bond line: locating the `ENDPTS=(…)` list in the joined text -/
+
+/-- every token followed by one blank -/
+def sp (ts : List Str) : Str := (ts.map (· ++ [' '])).flatten
+
+theorem sp_cons (t : Str) (ts : List Str) : sp (t :: ts) = t ++ ' ' :: sp ts := by simp [sp]
+
+theorem joinSp_cons_ne (a : Str) : ∀ (ts : List Str), ts ≠ [] → joinSp (a :: ts) = a ++ ' ' :: joinSp ts
+  | [], h => absurd rfl h
+  | _ :: _, _ => rfl
+
+theorem joinSp_sp (pre : List Str) (t : Str) (rest : List Str) :
+    joinSp (pre ++ t :: rest) = sp pre ++ joinSp (t :: rest) := by
+  induction pre with
+  | nil => rfl
+  | cons a pre ih =>
+    rw [List.cons_append, joinSp_cons_ne a _ (by simp), ih, sp_cons]
+    simp
+
+theorem prefix_no_blank : ∀ (p t R : Str), ' ' ∉ p → p.isPrefixOf (t ++ ' ' :: R) = true → p.isPrefixOf t = true := by
+  intro p
+  induction p with
+  | nil => intro t R _ _; simp
+  | cons a p ih =>
+    intro t R hp h
+    cases t with
+    | nil =>
+      simp only [List.nil_append, List.isPrefixOf, Bool.and_eq_true, beq_iff_eq] at h
+      exact absurd (by simp [h.1]) hp
+    | cons c r =>
+      simp only [List.cons_append, List.isPrefixOf, Bool.and_eq_true, beq_iff_eq] at h ⊢
+      exact ⟨h.1, ih r R (fun hm => hp (by simp [hm])) h.2⟩
+
+/-- a blank-free pattern that does not occur in `t` is first found in `t ++ ' ' :: R` where it is found in `R` -/
+theorem findInfix_tok_blank (p : Str) (hp : ' ' ∉ p) : ∀ (t R : Str), isInfix p t = false →
+    findInfix p (t ++ ' ' :: R) = (findInfix p R).map (· + (t.length + 1)) := by
+  intro t
+  induction t with
+  | nil =>
+    intro R h
+    have hne : p.isPrefixOf ([] ++ ' ' :: R) = false := by
+      cases hq : p.isPrefixOf ([] ++ ' ' :: R) with
+      | false => rfl
+      | true =>
+        have := prefix_no_blank p [] R hp hq
+        cases p with
+        | nil => simp [isInfix] at h
+        | cons a p => simp [List.isPrefixOf] at this
+    simp only [List.nil_append] at hne ⊢
+    simp only [findInfix, hne, Bool.false_eq_true, if_false, List.length_nil, Nat.zero_add]
+  | cons c r ih =>
+    intro R h
+    simp only [isInfix, Bool.or_eq_false_iff] at h
+    have hne : p.isPrefixOf ((c :: r) ++ ' ' :: R) = false := by
+      cases hq : p.isPrefixOf ((c :: r) ++ ' ' :: R) with
+      | false => rfl
+      | true => rw [prefix_no_blank p (c :: r) R hp hq] at h; exact absurd h.1 (by simp)
+    rw [List.cons_append] at hne ⊢
+    simp only [findInfix, hne, Bool.false_eq_true, if_false, ih R h.2, Option.map_map, List.length_cons]
+    cases findInfix p R with
+    | none => rfl
+    | some k => simp only [Option.map_some, Function.comp, Option.some.injEq]; omega
+
+theorem findInfix_sp (p : Str) (hp : ' ' ∉ p) (R : Str) : ∀ (pre : List Str), (∀ t ∈ pre, isInfix p t = false) →
+    findInfix p (sp pre ++ R) = (findInfix p R).map (· + (sp pre).length) := by
+  intro pre
+  induction pre with
+  | nil => intro _; simp [sp]
+  | cons a pre ih =>
+    intro h
+    rw [sp_cons, List.append_assoc, List.cons_append, findInfix_tok_blank p hp a _ (h a (by simp)),
+      ih (fun t ht => h t (by simp [ht])), Option.map_map]
+    cases findInfix p R with
+    | none => rfl
+    | some k =>
+      simp only [Option.map_some, Function.comp, Option.some.injEq, List.length_append, List.length_cons]; omega
+
+theorem findInfix_self (p R : Str) : findInfix p (p ++ R) = some 0 := by
+  cases hq : p ++ R with
+  | nil =>
+    have : p = [] := (List.append_eq_nil_iff.1 hq).1
+    subst this; rfl
+  | cons c r =>
+    have : p.isPrefixOf (c :: r) = true := by
+      rw [← hq, List.isPrefixOf_iff_prefix]; exact List.prefix_append p R
+    simp only [findInfix, this, if_true]
+
+/-- the first occurrence of a character that is not in the text before it -/
+theorem findInfix_char (c : Char) : ∀ (A B : Str), c ∉ A → findInfix [c] (A ++ c :: B) = some A.length := by
+  intro A
+  induction A with
+  | nil => intro B _; simp [findInfix, List.isPrefixOf]
+  | cons a A ih =>
+    intro B h
+    have hne : (c == a) = false := by
+      simp only [beq_eq_false_iff_ne, ne_eq]; rintro rfl; exact h (by simp)
+    rw [List.cons_append]
+    simp only [findInfix, List.isPrefixOf, hne, Bool.false_and, Bool.false_eq_true, if_false,
+      ih B (fun hm => h (by simp [hm])), Option.map_some, List.length_cons]
+
+theorem cs_ENDPTS_len : (cs "ENDPTS=(").length = 8 := by simp [cs]
+theorem cs_ENDPTS_noblank : ' ' ∉ cs "ENDPTS=(" := by simp [cs]
+
+theorem endptsMatch_eq (A inner B : Str) (hA : findInfix (cs "ENDPTS=(") (A ++ (cs "ENDPTS=(" ++ (inner ++ ')' :: B))) = some A.length)
+    (hinner : inner ≠ []) (hB : ')' ∉ B) :
+    endptsMatch (A ++ (cs "ENDPTS=(" ++ (inner ++ ')' :: B))) = some inner := by
+  have hbody : (A ++ (cs "ENDPTS=(" ++ (inner ++ ')' :: B))).drop (A.length + 8) = inner ++ ')' :: B := by
+    rw [← List.append_assoc]
+    exact List.drop_left' (by rw [List.length_append, cs_ENDPTS_len])
+  have hrev : (inner ++ ')' :: B).reverse = B.reverse ++ ')' :: inner.reverse := by simp
+  have hfind : findInfix [')'] (B.reverse ++ ')' :: inner.reverse) = some B.reverse.length :=
+    findInfix_char ')' _ _ (fun h => hB (List.mem_reverse.1 h))
+  have hpos : (inner ++ ')' :: B).length - 1 - B.reverse.length = inner.length := by
+    simp only [List.length_append, List.length_cons, List.length_reverse]; omega
+  have hlen : inner.length ≥ 1 := by
+    cases inner with
+    | nil => exact absurd rfl hinner
+    | cons _ _ => simp
+  unfold endptsMatch
+  simp only [hA, hbody, hrev, hfind, hpos, hlen, if_true, List.take_left]
+
+/-! ### `str.split()` on blank-joined tokens -/
+
+theorem go_tok : ∀ (t cur : Str) (acc : List Str) (R : Str), (∀ c ∈ t, isPySpace c = false) →
+    splitWs.go cur acc (t ++ R) = splitWs.go (t.reverse ++ cur) acc R := by
+  intro t
+  induction t with
+  | nil => intro cur acc R _; rfl
+  | cons c r ih =>
+    intro cur acc R h
+    rw [List.cons_append, splitWs.go]
+    simp only [h c (by simp), Bool.false_eq_true, if_false]
+    rw [ih (c :: cur) acc R (fun x hx => h x (by simp [hx]))]
+    simp
+
+theorem go_sufx : ∀ (toks : List Str) (cur : Str) (acc : List Str), cur ≠ [] → (∀ t ∈ toks, IsToken t) →
+    splitWs.go cur acc (sufx toks) = acc.reverse ++ cur.reverse :: toks := by
+  intro toks
+  induction toks with
+  | nil =>
+    intro cur acc hc _
+    have : cur.isEmpty = false := by cases cur with
+      | nil => exact absurd rfl hc
+      | cons _ _ => rfl
+    simp [sufx_nil, splitWs.go, this]
+  | cons t ts ih =>
+    intro cur acc hc h
+    have hce : cur.isEmpty = false := by cases cur with
+      | nil => exact absurd rfl hc
+      | cons _ _ => rfl
+    have ht := h t (by simp)
+    have hsp : isPySpace ' ' = true := by decide
+    rw [sufx_cons, List.cons_append, splitWs.go]
+    simp only [hsp, if_true, hce, Bool.false_eq_true, if_false]
+    rw [go_tok t [] _ _ ht.2, List.append_nil,
+      ih t.reverse (cur.reverse :: acc) (by simpa using ht.1) (fun x hx => h x (by simp [hx]))]
+    simp
+
+theorem splitWs_joinSp (t : Str) (ts : List Str) (h : ∀ x ∈ t :: ts, IsToken x) :
+    splitWs (joinSp (t :: ts)) = t :: ts := by
+  have ht := h t (by simp)
+  rw [joinSp_cons]
+  show splitWs.go [] [] (t ++ sufx ts) = _
+  rw [go_tok t [] [] _ ht.2, List.append_nil,
+    go_sufx ts t.reverse [] (by simpa using ht.1) (fun x hx => h x (by simp [hx]))]
+  simp
+
+theorem natRepr_isToken (n : Nat) : IsToken (natRepr n) :=
+  ⟨(natRepr_shape n).1, fun c hc => isDigit_not_space ((natRepr_shape n).2.1 c hc)⟩
+
+theorem mapM_pyInt_natRepr : ∀ (l : List Nat), (∀ e ∈ l, (natRepr e).length ≤ intMaxStrDigits) →
+    (l.map natRepr).mapM pyInt = .ok (l.map fun (e : Nat) => (e : Int)) := by
+  intro l
+  induction l with
+  | nil => intro _; rfl
+  | cons e l ih =>
+    intro h
+    rw [List.map_cons, List.mapM_cons, pyInt_natRepr e (h e (by simp)), ok_bind,
+      ih (fun x hx => h x (by simp [hx])), ok_bind]
+    rfl
+
+/-- the tokens of a non-empty list: `ENDPTS=(n`, all but the last endpoint, the last endpoint with `)` -/
+theorem endptsToks_concat (init : List Nat) (l : Nat) :
+    endptsToks (init ++ [l]) =
+      (cs "ENDPTS=(" ++ natRepr (init.length + 1)) :: init.map natRepr ++ [natRepr l ++ [')']] := by
+  have hcons : ∀ (e : Nat) (es : List Nat), endptsToks (e :: es) =
+      match ((natRepr (e :: es).length) :: (e :: es).map natRepr).reverse with
+      | [] => []
+      | last :: initRev => (cs "ENDPTS=(" ++ (initRev.reverse.headD [])) :: (initRev.reverse.drop 1) ++ [last ++ [')']] :=
+    fun _ _ => rfl
+  cases hil : init ++ [l] with
+  | nil => simp at hil
+  | cons e es =>
+    rw [hcons, ← hil]
+    simp
+
+end V3L
+open LineM V3L in
 /-- **Multi-attachment bonds.**  A bond line whose tokens contain `ENDPTS=(n a₁ … aₙ)` (n ≥ 1 endpoints,
 any position among the optional keywords, none of which contains a parenthesis) expands to one bond per
 listed endpoint from the non-star atom. -/
@@ -81,12 +479,53 @@ theorem parseBondLineWithStarAtom_endpts (pre post : List Str) (ends : List Nat)
     (hsize : ∀ e ∈ ends.length :: ends, (natRepr e).length ≤ intMaxStrDigits) :
     parseBondLineWithStarAtom (pre ++ endptsToks ends ++ post) start =
       .ok (ends.map fun (e : Nat) => (start, (e : Int) - 1)) := by
-  sorry
+  obtain ⟨init, l, rfl⟩ : ∃ init l, ends = init ++ [l] :=
+    ⟨ends.dropLast, ends.getLast hne, (List.dropLast_concat_getLast hne).symm⟩
+  -- the joined text
+  let nums : List Str := natRepr (init.length + 1) :: (init ++ [l]).map natRepr
+  have hinnerTok : ∀ t ∈ nums, IsToken t := by
+    intro t ht
+    simp only [nums, List.mem_cons, List.mem_map] at ht
+    rcases ht with rfl | ⟨e, _, rfl⟩
+    · exact natRepr_isToken _
+    · exact natRepr_isToken _
+  have hjoin : joinSp (pre ++ endptsToks (init ++ [l]) ++ post) =
+      sp pre ++ (cs "ENDPTS=(" ++ (joinSp nums ++ ')' :: sufx post)) := by
+    rw [endptsToks_concat, List.append_assoc, List.cons_append, List.cons_append, joinSp_sp, joinSp_cons, joinSp_cons]
+    simp [sufx_append, sufx_cons, sufx_nil]
+  have hfind : findInfix (cs "ENDPTS=(") (sp pre ++ (cs "ENDPTS=(" ++ (joinSp nums ++ ')' :: sufx post))) =
+      some (sp pre).length := by
+    rw [findInfix_sp _ cs_ENDPTS_noblank _ pre (fun t ht => by simpa using (hpre t ht).2.1), findInfix_self]
+    simp
+  have hinner : joinSp nums ≠ [] := by
+    rw [joinSp_cons]
+    intro h
+    exact (natRepr_shape (init.length + 1)).1 (List.append_eq_nil_iff.1 h).1
+  have hpostp : ')' ∉ sufx post := by
+    intro hm
+    simp only [sufx, List.mem_flatten, List.mem_map] at hm
+    obtain ⟨x, ⟨t, ht, rfl⟩, hx⟩ := hm
+    rcases List.mem_cons.1 hx with h | h
+    · revert h; decide
+    · exact (hpost t ht).2 h
+  have hmatch := endptsMatch_eq (sp pre) (joinSp nums) (sufx post) hfind hinner hpostp
+  have hsplit : splitWs (joinSp nums) = nums := splitWs_joinSp _ _ hinnerTok
+  have hmap : nums.mapM pyInt = .ok (((init.length + 1) :: (init ++ [l])).map fun (e : Nat) => (e : Int)) := by
+    have := mapM_pyInt_natRepr ((init.length + 1) :: (init ++ [l])) (by simpa using hsize)
+    simpa [nums] using this
+  unfold parseBondLineWithStarAtom
+  rw [hjoin, hmatch]
+  simp only [hsplit, hmap, ok_bind, List.map_cons, getIdx, List.getElem?_cons_zero, List.length_cons,
+    List.length_map, List.length_append, List.length_nil, Nat.add_sub_cancel, bne_self_eq_false,
+    Bool.false_eq_true, if_false, List.drop_succ_cons, List.drop_zero, List.map_map]
+  rfl
 
 /-- without an `ENDPTS` list a bond to a star atom contributes no bond -/
 theorem parseBondLineWithStarAtom_none (line : List Str) (start : Int)
     (h : findInfix (cs "ENDPTS=(") (joinSp line) = none) :
     parseBondLineWithStarAtom line start = .ok [] := by
-  sorry
+  unfold parseBondLineWithStarAtom endptsMatch
+  rw [h]
+
 
 end Tucan
